@@ -238,6 +238,11 @@ func (ex *Exec) copyElems(dst *ArrObj, doff *Term, src *ArrObj, soff *Term, n *T
 			lo = int(dk)
 			if nconst {
 				hi = int(dk + nk)
+			} else if src.isDense() && sconst {
+				// n cannot exceed what the source holds
+				if h := int(dk) + len(src.Dense) - int(sk); h < hi {
+					hi = h
+				}
 			}
 		}
 		for j := lo; j < hi; j++ {
